@@ -43,6 +43,8 @@ fn gen_stream(modules: &[(ExecFn, GenFn)], stream: &str, tier: &str, seed: u64, 
 }
 
 /// the command-line loop shared by every harness binary
+thread_local! { static PANIC_LOC: std::cell::RefCell<String> = std::cell::RefCell::new(String::new()); }
+
 pub fn run_main(modules: &'static [(ExecFn, GenFn)]) {
     let args: Vec<String> = std::env::args().collect();
     match args.get(1).map(|s| s.as_str()) {
@@ -54,7 +56,7 @@ pub fn run_main(modules: &'static [(ExecFn, GenFn)]) {
         }
         Some("exec") => {
             let oracle_path = args.iter().position(|a| a == "--oracle").map(|i| args[i + 1].clone());
-            std::panic::set_hook(Box::new(|_| {}));
+            std::panic::set_hook(Box::new(|i| { let l = i.location().map(|l| { let f = l.file(); let f = f.rsplit('/').take(2).collect::<Vec<_>>().into_iter().rev().collect::<Vec<_>>().join("/"); format!("{}:{}", f, l.line()) }).unwrap_or_default(); if std::env::var_os("VERIF_PANIC_LOG").is_some() { eprintln!("panic: {} @ {}", i.payload().downcast_ref::<&str>().map(|s| s.to_string()).or_else(|| i.payload().downcast_ref::<String>().cloned()).unwrap_or_default(), l); } PANIC_LOC.with(|c| *c.borrow_mut() = l); }));
             let child = std::thread::Builder::new().stack_size(512 << 20).spawn(move || {
                 let stdin = std::io::stdin();
                 let so = std::io::stdout();
@@ -69,7 +71,8 @@ pub fn run_main(modules: &'static [(ExecFn, GenFn)]) {
                         Ok(a) => a,
                         Err(p) => {
                             let msg = p.downcast_ref::<String>().cloned().or_else(|| p.downcast_ref::<&str>().map(|s| s.to_string())).unwrap_or_default();
-                            o.fail("PANIC", msg.replace('\n', " "));
+                            let loc = PANIC_LOC.with(|c| c.borrow().clone());
+                            o.fail("PANIC", format!("{} @ {}", msg.replace('\n', " "), loc));
                             "panic".into()
                         }
                     };
